@@ -38,7 +38,7 @@ def classifySrc : List String := [
     "        attribs.append(tmp_attrib)"]
 
 /-- `Attribs.contrib`, `Attribs.paramItems`, `Attribs.paramPairs` (body of the `ATTRIB_RE` branch) -/
-def stmtSrc (cfg : Cfg) : List String := [
+def stmtSrcK (cfg : Cfg) (keyFn : Bool) : List String := [
     "attr = match.group(1).lower().replace(' ', '')",
     "if len(attr) >= 4 and attr[0:4].lower() == 'bind':",
     "    attr = attr.replace(',', ', ')",
@@ -72,12 +72,24 @@ def stmtSrc (cfg : Cfg) : List String := [
     "                split = ford.utils.paren_split('=', name)",
     "                name = split[0].strip().lower()",
     (if cfg.paramJoin then "                self.param_dict[name] = '='.join(split[1:])" else "                self.param_dict[name] = split[1]"),
-    "            name = name.strip().lower()",
+    (if keyFn then "            name = _attr_key(name)" else "            name = name.strip().lower()"),
     "            self.attr_dict[name].append(attr)",
     "elif attr.lower() == 'data' and self.obj == 'sourcefile':",
     "    continue",
     "else:",
     "    self.print_error(line, f'Unexpected {attr.upper()} statement')"]
+
+/-- as found: the item of any other attribute statement is filed under `name.strip().lower()` -/
+def stmtSrc (cfg : Cfg) : List String := stmtSrcK cfg false
+
+/-- the helper of repair cbe48be (`Attribs.attrKey`): as the old key, and a generic-spec (`operator (+)`) loses its
+    blanks; `Attribs.attrKey_plain`: no difference for a key without parenthesis, i.e. for every variable -/
+def attrKeySrc : List String := [
+    "def _attr_key(name: str):",
+    "    name = name.strip().lower()",
+    "    if '(' in name:",
+    "        name = re.sub('\\\\s+', '', name)",
+    "    return name"]
 
 /-- `Attribs.applyAttr`, `Attribs.processVars` for a code unit (the used key is deleted) -/
 def processCodeUnitSrc (cfg : Cfg) : List String := [
